@@ -628,6 +628,10 @@ async def scenario_connect(subset, fail_at, fail_kind):
                     log["tasks_run"] += 1
                 return {asyncio.ensure_future(bg())}
 
+            if idx == fail_at and fail_kind == "setup":
+                # setting the protocol up fails (e.g. unparsable credentials): nothing is connected
+                # yet, but connect() has already created the HTTP session manager
+                raise Boom("setup failed for %s" % proto.name)
             yield SetupData(proto, connect, close, device_info, Ifaces(), Feats())
         return setup
 
@@ -908,11 +912,11 @@ def run(ctx):
     for k in range(1, 6):
         for subset in itertools.combinations(protos, k):
             for fail_at in range(k):
-                for kind in ("exn", "oserror", "device_info", "interfaces", "features"):
+                for kind in ("exn", "oserror", "device_info", "interfaces", "features", "setup"):
                     r = vloop.run(scenario_connect, list(subset), fail_at, kind)
                     if kind == "features" and r["result"] == "ok":
                         continue     # the facade did not iterate the feature set: nothing was injected
-                    ctx.case(("connect", tuple(p.name for p in subset), fail_at, kind), nontrivial=fail_at > 0 or kind not in ("exn", "oserror"),
+                    ctx.case(("connect", tuple(p.name for p in subset), fail_at, kind), nontrivial=fail_at > 0 or kind not in ("exn", "oserror", "setup"),
                              sample={"op": "connect", "protocols": [p.name for p in subset], "failing": fail_at, "result": r["result"], "leaks": r["leaks"]} if fail_at == 1 else None)
                     ctx.count("connect:" + kind)
                     if r["result"] == "ok":
